@@ -644,6 +644,8 @@ def literal_to_lean(items, target, srcvar, leanvar, params, where, report, conv,
             raise Unknown("%s: shorthand field `%s` without a recognised local binding" % (where, n))
         else:
             lean, kind, rd = translate_expr(e, srcvar, leanvar, params, "%s field `%s`" % (where, n))
+        if kind == "copied" and rd != n:
+            kind = "cross-copied(from field `%s`)" % rd
         if lean == "default":
             inh.append(tymap[n].lean(False))
         if rd:
